@@ -58,11 +58,50 @@ def run(ctx):
         if not my:
             r2.fail("cmp@%s:unresolved" % c.span.split(":")[0], "result of Vec<u8> comparison is not tested by a resolvable branch", c.where())
             continue
+        class _HC:
+            """a hash helper call as seen from startup: the call itself, or the one inside a closure of startup that was invoked (its arguments mapped back to
+            the invocation's arguments and the closure's captures)"""
+            def __init__(self, name, args, where):
+                self.name, self.args, self._w = name, args, where
+
+            def where(self):
+                return self._w
+
+        def expand(call):
+            if call.is_(*HASHES):
+                return [_HC(call.name, list(call.args), call.where())]
+            cb = F.body(call.name)
+            if cb is None or cb.kind != "closure" or len(call.args) < 2:
+                return []
+            caps, targs_ = [], []
+            for o in origins(s, call.args[0]):
+                if o.kind == "agg" and o.extra.get("agg") == "closure":
+                    caps = o.extra.get("ops", [])
+            for o in origins(s, call.args[1]):
+                if o.kind == "agg" and o.extra.get("agg") == "tuple":
+                    targs_ = o.extra.get("ops", [])
+            out_ = []
+            for hc2 in cb.calls(*HASHES):
+                if not any(o.kind == "call" and o.call.block == hc2.block for o in origins(cb, {"c": "move", "pl": {"l": 0, "p": []}})):
+                    continue
+                mapped = []
+                for a2 in hc2.args:
+                    m_ = None
+                    for o in origins(cb, a2, taint=True):
+                        if o.kind in ("param", "place") and o.what == 1 and o.proj:
+                            idx = [p_[1:] for p_ in o.proj if isinstance(p_, str) and p_.startswith(".") and p_[1:].isdigit()]
+                            if idx and int(idx[0]) < len(caps):
+                                m_ = caps[int(idx[0])]
+                        elif o.kind == "param" and isinstance(o.what, int) and o.what >= 2 and o.what - 2 < len(targs_):
+                            m_ = targs_[o.what - 2]
+                    mapped.append(m_ if m_ is not None else a2)
+                out_.append(_HC(hc2.name, mapped, hc2.where()))
+            return out_
         sides = []
         for a in c.args[:2]:
             vis = set()
             os_ = origins(s, a, visited=vis)
-            hashes = [o.call for o in os_ if o.kind == "call" and o.call.is_(*HASHES)]
+            hashes = [h_ for o in os_ if o.kind == "call" for h_ in expand(o.call)]
             sides.append((hashes, vis, os_))
         hs = [i for i, (h, _, _) in enumerate(sides) if h]
         if len(hs) != 1:
